@@ -1024,6 +1024,18 @@ pub struct ServerPool {'''),
                     }
 
                     // Decide the role before anything below can bail out."""),
+    dict(id="c08-failed-reprepare-forgets-name", prop="C08", file="src/client.rs", expect="C08-R4",
+         what="a refused re-prepare removes the client's statement name (D51 again)",
+         old="""                            debug!("Could not prepare {} on the server", client_name);""",
+         new="""                            debug!("Could not prepare {} on the server", client_name);
+                            self.prepared_statements.remove(&client_name);"""),
+    dict(id="c08-refused-batch-forgets-by-rewritten-name", prop="C08", file="src/client.rs", expect="C08-R4",
+         what="a refused batch forgets every statement that shares the rewritten name (D52 again)",
+         old="""                if let Ok(client_given_name) = Parse::get_name(data) {
+                    self.prepared_statements.remove(&client_given_name);
+                }""", new="""                if let Ok(rewritten) = Parse::get_name(data).map(|_| data.len()) {
+                    self.prepared_statements.retain(|_, (cached, _)| cached.name.len() != rewritten);
+                }"""),
     # ------------------------------------------------------------------ C17
     dict(id="c17-shutdown-checked-in-transaction", prop="C17", file="src/client.rs", expect="C17-R1",
          what="the transaction loop also reacts to the shutdown broadcast",
